@@ -167,11 +167,11 @@ def build(prog, lazy, purestyle="def"):
         if op == "const":
             o = to_py(nd["v"])
             if lazy and nd["w"]:
-                o = delayed(o)
+                o = delayed(o, pure=True) if nd["pure"] else delayed(o)
         elif op == "cont":
             o = make_cont(nm, xs, kw)
             if lazy and nd["w"]:
-                o = delayed(o)
+                o = delayed(o, pure=True) if nd["pure"] else delayed(o)
         elif op == "call":
             f = FUNCS[nm]
             if not lazy:
@@ -228,12 +228,15 @@ def eager_vals(prog):
 
 
 def observe(prog, variant):
-    """Build with dask.delayed and compute the last node.  variant = (purestyle, scheduler, fuse)."""
+    """Build with dask.delayed and compute ALL Delayed nodes in one dask.compute (nodes that share a key must
+    still come back with their own value).  variant = (purestyle, scheduler, fuse); fuse: 0 = off, 1 = linear
+    fusion on and only the last node computed (one output key), 2 = linear fusion on, all nodes computed."""
     import dask
     from dask.delayed import Delayed
     purestyle, sched, fuse = variant
-    obs = {"raised": "", "val": {"t": "none"}, "keys": [0] * len(prog), "named": [True] * len(prog),
-           "nouts": [True] * len(prog), "msg": ""}
+    obs = {"raised": "", "vals": [{"t": "none"}] * len(prog), "keys": [0] * len(prog), "named": [True] * len(prog),
+           "nouts": [True] * len(prog), "seen": [False] * len(prog), "msg": ""}
+    fuse = int(fuse)
     try:
         objs, nout_ok = build(prog, lazy=True, purestyle=purestyle)
         seen = {}
@@ -244,9 +247,15 @@ def observe(prog, variant):
                 if nd["dkn"]:
                     obs["named"][i] = (k == nd["dkn"])
             obs["nouts"][i] = bool(nout_ok[i])
+        idx = [i for i, o in enumerate(objs) if isinstance(o, Delayed)]
+        if fuse == 1:
+            idx = idx[-1:]
         with dask.config.set({"optimization.fuse.delayed": bool(fuse)}):
-            val = objs[-1].compute(scheduler=sched)
-        obs["val"] = norm(val)
+            vals = dask.compute(*[objs[i] for i in idx], scheduler=sched)
+        obs["vals"] = list(obs["vals"])
+        for i, v in zip(idx, vals):
+            obs["vals"][i] = norm(v)
+            obs["seen"][i] = True
     except NotImplementedError as ex:
         obs["skip"] = "NotImplementedError: " + str(ex)[:60]
     except Exception as ex:  # noqa: BLE001 - every exception of dask is an observation
@@ -263,10 +272,10 @@ def judge(case, obs):
         return None if obs["raised"] else "ErrorExpected"
     if obs["raised"]:
         return "UnexpectedRaise"
-    if canon(obs["val"]) != canon(vals[-1]):
-        return "Value"
     if [k != 0 for k in obs["keys"]] != [bool(d) for d in dl]:
         return "Modes"
+    if any(sn and canon(o) != canon(v) for sn, o, v in zip(obs["seen"], obs["vals"], vals)):
+        return "Value"
     n = len(prog)
     fresh = [_fresh(prog[i]) for i in range(n)]
     for i in range(n):
@@ -283,12 +292,16 @@ def judge(case, obs):
 
 
 def _fresh(nd):
-    return nd["op"] in ("const", "cont") or (nd["op"] in ("call", "meth") and not nd["pure"] and not nd["dkn"])
+    if nd["op"] in ("const", "cont"):
+        return not nd["pure"]
+    return nd["op"] in ("call", "meth") and not nd["pure"] and not nd["dkn"]
 
 
 def classify(prog, clause, variant=("def", "sync", False)):
     """Signature: the failing clause and the construct classes the program combines (no numbers).
     Input classes behind recorded known findings come first (one root cause = one signature)."""
+    if int(variant[2]) == 2 and clause == "UnexpectedRaise":
+        return "fuse.delayed:several-outputs"
     if variant[2] and clause == "UnexpectedRaise" and any(nd["op"] == "getattr" for nd in prog):
         return "fuse.delayed:getattr"
     names = {nd["dkn"] for nd in prog if nd["dkn"]}
@@ -366,7 +379,8 @@ def random_program(rng, nops):
     for _ in range(rng.randint(1, 3)):
         r = rng.random()
         v = {"t": "int", "v": rng.choice(INT_LEAVES)} if r < 0.8 else {"t": "str", "s": rng.choice(["kk", "s"])}
-        push(node("const", v=v, w=rng.random() < 0.6))
+        w = rng.random() < 0.6
+        push(node("const", v=v, w=w, pure=w and rng.random() < 0.3))
     names = 0
     tries = 0
     done = 0
@@ -377,24 +391,63 @@ def random_program(rng, nops):
         pick = lambda: rng.choice(R[-4:]) if rng.random() < 0.7 else rng.choice(R)
         D = [j for j in R if dl[j - 1]]
         r = rng.random()
-        if r < 0.22:
+        keyed = [j for j in R if prog[j - 1]["pure"] and not prog[j - 1]["dkn"] and prog[j - 1]["op"] in ("call", "meth", "cont")
+                 and prog[j - 1]["nm"] != "set"]
+        if keyed and rng.random() < 0.15:
+            # a near-copy of an earlier pure call / pure-wrapped container: the same thing again, the arguments in
+            # another order, a positional argument passed by keyword (or back), another keyword name, one argument
+            # replaced - the pairs the pure-key clause is about
+            nd = dict(prog[rng.choice(keyed) - 1])
+            nd["xs"], nd["kn"], nd["kx"] = list(nd["xs"]), list(nd["kn"]), list(nd["kx"])
+            how = rng.choice(["same", "swap", "tokw", "topos", "rename", "replace"])
+            first = 1 if nd["op"] == "meth" else 0                 # the receiver of a method stays
+            if how == "swap" and len(nd["xs"]) - first >= 2:
+                nd["xs"][first], nd["xs"][-1] = nd["xs"][-1], nd["xs"][first]
+            elif how == "swap" and len(nd["kx"]) == 2:
+                nd["kx"].reverse()
+            elif how == "tokw" and nd["op"] != "cont" and len(nd["xs"]) > first and len(nd["kn"]) < 2:
+                free = [n for n in ("j", "k") if n not in nd["kn"]]
+                pairs = sorted(zip(nd["kn"] + [rng.choice(free)], nd["kx"] + [nd["xs"].pop()]))
+                nd["kn"], nd["kx"] = [a for a, _ in pairs], [b for _, b in pairs]
+            elif how == "topos" and nd["op"] != "cont" and nd["kn"]:
+                nd["kn"].pop()
+                nd["xs"].append(nd["kx"].pop())
+            elif how == "rename" and nd["op"] != "cont" and len(nd["kn"]) == 1:
+                nd["kn"] = ["j" if nd["kn"][0] == "k" else "k"]
+            elif how == "replace" and (nd["xs"][first:] or nd["kx"]):
+                if nd["xs"][first:]:
+                    nd["xs"][rng.randrange(first, len(nd["xs"]))] = pick()
+                else:
+                    nd["kx"][rng.randrange(len(nd["kx"]))] = pick()
+            if nd["op"] == "call" and nd["nm"] == "tup":
+                nd["i"] = len(nd["xs"])
+            if nd["op"] == "cont":
+                if nd["nm"] in ("slice", "slice_to") and not all(type(vals[j - 1]) is int for j in nd["xs"]):
+                    continue
+                if nd["nm"] == "dictk" and type(vals[nd["xs"][0] - 1]) not in (int, str):
+                    continue
+            if nd["op"] == "meth" and nd["nm"] == "count":
+                continue
+        elif r < 0.22:
             k = rng.choice([0, 1, 1, 2, 2])
             xs = [pick() for _ in range(k)]
-            kx = [pick()] if rng.random() < 0.3 else []
+            kn = sorted(rng.sample(["j", "k"], rng.choice([0, 0, 0, 1, 1, 2])))
+            kx = [pick() for _ in kn]
             dkn = ""
             if rng.random() < 0.12:
                 names += 1
                 dkn = "kk" if names == 1 else "name%d" % names
-            nd = node("call", rng.choice(["f1", "f1", "f2"]), xs=xs, kn=["k"] if kx else [], kx=kx, pure=rng.random() < 0.65, dkn=dkn)
+            nd = node("call", rng.choice(["f1", "f1", "f2"]), xs=xs, kn=kn, kx=kx, pure=rng.random() < 0.65, dkn=dkn)
         elif r < 0.30:
             xs = [pick() for _ in range(rng.choice([1, 2, 2]))]
             nd = node("call", "tup", xs=xs, pure=rng.random() < 0.65, i=len(xs))
         elif r < 0.62:
             kind = rng.choice(["list", "tuple", "set", "dict", "dictk", "slice", "slice_to", "obj", "nt", "list", "tuple", "dict"])
-            w = rng.random() < 0.4
+            w = rng.random() < 0.45
+            wp = w and kind != "set" and rng.random() < 0.45          # delayed(obj, pure=True)
             if kind == "dict":
                 k = rng.choice([1, 2])
-                nd = node("cont", "dict", kn=["p", "q"][:k], kx=[pick() for _ in range(k)], w=w)
+                nd = node("cont", "dict", kn=["p", "q"][:k], kx=[pick() for _ in range(k)], w=w, pure=wp)
             else:
                 k = {"slice_to": 1, "list": rng.choice([1, 2, 3]), "tuple": rng.choice([1, 2, 3]), "set": rng.choice([1, 2])}.get(kind, 2)
                 xs = [pick() for _ in range(k)]
@@ -406,7 +459,7 @@ def random_program(rng, nops):
                         continue
                     if kind == "set" and len(set(xs)) == len(xs) and len({vals[j - 1] for j in xs}) < len(xs):
                         continue        # two different nodes with equal values: may be two Delayed with one key
-                nd = node("cont", kind, xs=xs, w=w)
+                nd = node("cont", kind, xs=xs, w=w, pure=wp)
         elif not D:
             continue
         else:
@@ -428,8 +481,8 @@ def random_program(rng, nops):
                 if s < 0.5:
                     nd = node("getattr", rng.choice(["x", "y"]), xs=[a])
                 else:
-                    kx = [pick()] if rng.random() < 0.3 else []
-                    nd = node("meth", "tag", xs=[a] + [pick() for _ in range(rng.choice([0, 1]))], kn=["k"] if kx else [], kx=kx,
+                    kn = sorted(rng.sample(["j", "k"], rng.choice([0, 0, 1, 2])))
+                    nd = node("meth", "tag", xs=[a] + [pick() for _ in range(rng.choice([0, 1]))], kn=kn, kx=[pick() for _ in kn],
                               pure=rng.random() < 0.5)
             elif type(va) is NT:
                 nd = node("getattr", rng.choice(["a", "b"]), xs=[a])
@@ -485,6 +538,15 @@ def probe_programs():
         [N("const", v=one, w=True), N("const", v=two), N("bin", "sub", xs=[2, 1]), N("bin", "sub", xs=[1, 2]), N("call", "f1", xs=[3, 4])],
         [N("const", v=one, w=True), N("const", v=two), N("cont", "list", xs=[1, 2, 1]), N("cont", "slice", xs=[1, 2]),
          N("cont", "list", xs=[3], w=True), N("cont", "dictk", xs=[1, 4]), N("call", "f1", xs=[5, 6], pure=True)],
+        # the same value under two keyword names, keyword vs positional, swapped keyword values
+        [N("const", v=one, w=True), N("const", v=two), N("call", "f1", xs=[1], kn=["j"], kx=[2], pure=True),
+         N("call", "f1", xs=[1], kn=["k"], kx=[2], pure=True), N("call", "f1", xs=[1, 2], pure=True),
+         N("call", "f1", kn=["j", "k"], kx=[1, 2], pure=True), N("call", "f1", kn=["j", "k"], kx=[2, 1], pure=True),
+         N("call", "f2", xs=[3, 4, 5]), N("call", "f2", xs=[6, 7, 8])],
+        # containers wrapped with pure=True: same Delayed member, another plain member / another order
+        [N("const", v=one, w=True), N("const", v=two), N("const", v={"t": "int", "v": 0}), N("cont", "list", xs=[1, 2], w=True, pure=True),
+         N("cont", "list", xs=[1, 3], w=True, pure=True), N("cont", "list", xs=[2, 1], w=True, pure=True),
+         N("cont", "list", xs=[1, 2], w=True, pure=True), N("call", "f2", xs=[4, 5, 6]), N("call", "f2", xs=[7, 8])],
         # a Delayed whose key is spelled like a plain string argument
         [N("const", v={"t": "str", "s": "kk"}), N("const", v=one, w=True), N("call", "f1", xs=[2], dkn="kk"),
          N("call", "f1", xs=[3, 1], pure=True), N("call", "f1", xs=[1, 3], pure=True), N("call", "f2", xs=[4, 5])],
@@ -499,7 +561,7 @@ def _record(item):
     obs = dict(obs)
     msg = obs.pop("msg", "")
     ref = eager_vals(prog)
-    return {"id": "r%d" % i, "prog": prog, "obs": obs, "ref": ref[-1] if ref is not None else {"t": "err"},
+    return {"id": "r%d" % i, "prog": prog, "obs": obs, "ref": ref if ref is not None else [{"t": "err"}] * len(prog),
             "variant": list(variant), "msg": msg}
 
 
@@ -521,11 +583,11 @@ INVS = ["InfoOK", "Sane", "NoErrors", "IdentSound", "BuildFree", "NoutLen", "Nou
 def enumerate_programs(ctx, levels):
     """spec -> code, step 1: the TLC runs (design check on every state + export)."""
     allcases = []
-    for (ml, mo, rate, pures) in levels:
+    for (mode, ml, mo, rate, pures) in levels:
         spec, cfg = ctx.model(ctx.spec("graph", "DelayedProgMC.tla"),
                               {"MaxLeaves": ml, "MaxOps": mo, "Rate": TLA("<<" + ", ".join(map(str, rate)) + ">>"),
-                               "Seed": ctx.seed + 1, "Pures": TLA(pures)}, invariants=INVS)
-        cases, _ = ctx.tlc_cases(spec, cfg, label="design+programs:leaves<=%d,ops<=%d,rate=%s" % (ml, mo, rate), timeout=1500)
+                               "Seed": ctx.seed + 1, "Pures": TLA(pures), "Mode": mode}, invariants=INVS)
+        cases, _ = ctx.tlc_cases(spec, cfg, label="design+programs:%s,leaves<=%d,ops<=%d,rate=%s" % (mode, ml, mo, rate), timeout=1500)
         allcases += cases
     ctx.extra["programs_enumerated_by_tlc"] = ctx.extra.get("programs_enumerated_by_tlc", 0) + len(allcases)
     return allcases
@@ -537,9 +599,9 @@ def replay_programs(ctx, cases, rng, thorough=False):
     items = []
     for c in cases:
         if thorough:
-            v = (rng.choice(["def", "call"]), "sync", rng.random() < 0.3)
+            v = (rng.choice(["def", "call"]), "sync", rng.choice([0, 0, 0, 0, 0, 0, 1, 1, 1, 2]))
         else:
-            v = ("def" if rng.random() < 0.7 else "call", "sync", rng.random() < 0.15)
+            v = ("def" if rng.random() < 0.7 else "call", "sync", rng.choice([0] * 16 + [1, 1, 1, 2]))
         items.append((c, v))
     results = pmap(_work, items, chunk=50)
     for (case, variant), (cl, detail, obs) in zip(items, results):
@@ -567,7 +629,7 @@ def record_programs(ctx, progs, rng, thorough=False):
     todo = []
     for i, p in enumerate(progs):
         sched = "threads" if (thorough and i % 7 == 0) else "sync"
-        todo.append((i, p, (rng.choice(["def", "call"]), sched, rng.random() < 0.25)))
+        todo.append((i, p, (rng.choice(["def", "call"]), sched, rng.choice([0, 0, 0, 0, 0, 0, 1, 1, 2]))))
     recs = [r for r in pmap(_record, todo, chunk=50, always=thorough) if r is not None]
     spec, cfg = ctx.model(ctx.spec("graph", "DelayedProgTrace.tla"), {})
     for lo in range(0, len(recs), 4000):
@@ -595,7 +657,7 @@ def core(ctx, levels, cap, nrandom, rng, thorough=False):
     """levels: list of (MaxLeaves, MaxOps, Rate, Pures).  Returns (#violations, sampled?)."""
     before = len(ctx.violations)
     cases = enumerate_programs(ctx, levels)
-    sampled = any(r < 1000 for (_, _, rate, _) in levels for r in rate)
+    sampled = any(r < 1000 for (_, _, _, rate, _) in levels for r in rate)
     if len(cases) > cap:
         sampled = True
         cases = rng.sample(cases, cap)
@@ -639,10 +701,11 @@ def _show(prog):
 
 def run(ctx):
     if ctx.quick:
-        levels = [(2, 3, [1000, 4, 120], "{TRUE}"), (3, 2, [250, 60], "{TRUE}")]
-        cap, nrandom = 9000, 1000
+        levels = [("pairs", 2, 3, [1000, 1000, 1000], "{TRUE}"), ("grow", 2, 3, [1000, 2, 40], "{TRUE}"), ("grow", 3, 2, [100, 40], "{TRUE}")]
+        cap, nrandom = 9000, 700
     else:
-        levels = [(2, 2, [1000, 1000], "{TRUE}"), (3, 3, [300, 8, 100], "{TRUE, FALSE}"), (2, 4, [1000, 3, 5, 100], "{TRUE}")]
+        levels = [("pairs", 2, 3, [1000, 1000, 1000], "{TRUE}"), ("grow", 2, 2, [1000, 1000], "{TRUE}"),
+                  ("grow", 3, 3, [250, 6, 80], "{TRUE, FALSE}"), ("grow", 2, 4, [1000, 2, 4, 80], "{TRUE}")]
         cap, nrandom = 150000, 4000
     _, sampled = core(ctx, levels, cap, nrandom, ctx.rng, thorough=not ctx.quick)
     ctx.exhaustive = not sampled
@@ -679,8 +742,8 @@ def selftest(ctx):
     ok = True
     rdir = os.path.join(os.path.dirname(os.path.dirname(os.path.dirname(os.path.abspath(__file__)))), "replays")
     before = set(glob.glob(os.path.join(rdir, "C15-*.json")))
-    cases = enumerate_programs(ctx, [(2, 2, [1000, 12], "{TRUE}")])
-    cases = random.Random(5).sample(cases, min(len(cases), 900))
+    cases = enumerate_programs(ctx, [("pairs", 2, 3, [1000, 1000, 1000], "{TRUE}"), ("grow", 2, 2, [1000, 8], "{TRUE}")])
+    cases = random.Random(5).sample(cases, min(len(cases), 1200))
     rprogs = probe_programs() + [random_program(random.Random(7 + i), 6) for i in range(120)]
 
     def attempt(name, with_records=False):
@@ -704,6 +767,27 @@ def selftest(ctx):
     # mutant 2: keyword arguments do not take part in the pure token (found by TLC on recorded keys as well)
     with source_mutant(DD, "call_function", "tokenize(func_token, *args, pure=pure, **kwargs)", "tokenize(func_token, *args, pure=pure)"):
         ok &= attempt("pure-token-ignores-kwargs", with_records=True)
+    # mutant 2b: the pure token is built from the keyword VALUES in name order, not from (name, value) pairs
+    with source_mutant(DD, "call_function", "tokenize(func_token, *args, pure=pure, **kwargs)",
+                       "tokenize(func_token, *args, *[kwargs[k] for k in sorted(kwargs)], pure=pure)"):
+        ok &= attempt("pure-token-forgets-keyword-names")
+    # mutant 2c: delayed(container, pure=True) is named after its type and the collections it holds only
+    import inspect
+    import textwrap
+
+    import dask
+    src = textwrap.dedent(inspect.getsource(DD.delayed.func))
+    anchor = 'name = f"{type(obj).__name__}-{tokenize(task, pure=pure)}"'
+    if src.count(anchor) != 1:
+        raise MachineryError("mutant anchor not found in dask.delayed.delayed")
+    orig_delayed = DD.delayed
+    exec(compile(src.replace(anchor, 'name = f"{type(obj).__name__}-{tokenize(type(obj), *collections, pure=pure)}"'),
+                 "<mutant dask.delayed.delayed>", "exec"), DD.__dict__)
+    dask.delayed = DD.delayed
+    try:
+        ok &= attempt("pure-container-name-ignores-plain-members")
+    finally:
+        DD.delayed = dask.delayed = orig_delayed
     # mutant 3: the reflected operator is not swapped (2 - d computes d - 2)
     orig = DD.Delayed.__rsub__, DD.Delayed.__rfloordiv__
     DD.Delayed.__rsub__, DD.Delayed.__rfloordiv__ = DD.Delayed.__sub__, DD.Delayed.__floordiv__
@@ -738,7 +822,7 @@ def selftest(ctx):
     base = {k: rec[k] for k in ("id", "prog", "obs", "ref")}
     bad1 = json.loads(json.dumps(base))
     bad1["id"] = "v"
-    bad1["obs"]["val"] = {"t": "list", "xs": [bad1["obs"]["val"]]}
+    bad1["obs"]["vals"][-1] = {"t": "list", "xs": [bad1["obs"]["vals"][-1]]}
     bad2 = json.loads(json.dumps(base))
     bad2["id"] = "k"
     i = [j for j, nd in enumerate(prog) if nd["op"] == "call" and nd["pure"] and not nd["dkn"]][0]
